@@ -52,8 +52,8 @@ theorem label_pm (cx : Cx) (fuel : Nat) (env : Src.Env) (he : EnvOK cx env) (n :
     | none => exact Grow.push _ _
   intro r i0 hp _ k b _ m j hex hin hcont
   obtain ⟨i, hlk, hR⟩ := hex.labs n id hn (hin n id hid)
-  have hit : itemAt cx.rs ⟨r, i0⟩ = some (.label id true) := by simpa using hp.item (d := 0) rfl
-  have htg : target cx.rs id = ⟨r, i0⟩ := by simpa using hp.resolve cx.hlab (d := 0) (l := id) (nm := true) rfl
+  have hit : ItemC cx.cp cx.rs ⟨r, i0⟩ (.label id true) := by simpa using hp.item (d := 0) rfl
+  have htg : target cx.rs (cx.cp.σ id) = ⟨r, i0⟩ := by simpa using hp.resolve cx.hlab (d := 0) (l := id) (nm := true) rfl
   rw [htr, hlk]
   simp only
   refine ⟨by rw [← htg]; exact hR, ?_⟩
@@ -120,7 +120,7 @@ theorem call_pm (cx : Cx) (fuel : Nat) (env : Src.Env) (n : String) (hn : n ∈ 
     simp [loneJump, this] at hl
   intro r i0 hp _ k b hag m j hex hin hcont
   obtain ⟨i, hlk, hR⟩ := hex.labs n id hn (hin n id hid)
-  have hit : itemAt cx.rs ⟨r, i0⟩ = some (.ljump ⟨s1.opc + 1, Gen.op_call, []⟩ (some id)) := by simpa using hp.item (d := 0) rfl
+  have hit : ItemC cx.cp cx.rs ⟨r, i0⟩ (.ljump ⟨s1.opc + 1, Gen.op_call, []⟩ (some id)) := by simpa using hp.item (d := 0) rfl
   have hstep := lab_test hit (isTest_not_jump _ call_isTest) call_isTest
   rw [htr] at hag ⊢
   have hlook : Src.lookupLabel env b n = (b, i) := by simp [Src.lookupLabel, hlk]
@@ -128,8 +128,10 @@ theorem call_pm (cx : Cx) (fuel : Nat) (env : Src.Env) (n : String) (hn : n ∈ 
   simp only at hag ⊢
   obtain ⟨a1, a2⟩ := tbl_push b (.test ⟨ESV.Spec.op_call, []⟩ i k)
   have hN := agree_last hag a1
-  have hev : (⟨Gen.op_call, convParams []⟩ : Ev) = ⟨ESV.Spec.op_call, []⟩ := by decide
-  rw [hev] at hstep
+  have hev : (⟨Gen.op_call, convParams ([].map cx.cp.sub)⟩ : Ev) = ⟨ESV.Spec.op_call, []⟩ := by
+    show (⟨Gen.op_call, []⟩ : Ev) = _
+    decide
+  simp only [hev] at hstep
   have hfalls : falls [LItem.ljump ⟨s1.opc + 1, Gen.op_call, []⟩ (some id)] = true := by
     show (!(Gen.opsEndFlow.contains Gen.op_call)) = true
     decide
